@@ -120,6 +120,7 @@ Fixpoint visit (e : expr) (g : nat) (hardctx : bool) (pc ns : nat) {struct e} : 
       bindc (visit c (S g) hardctx (pc + 1) ns) (fun '(code, ns1) =>
       inr (ISave (g * 2) :: code ++ [ISave (g * 2 + 1)], ns1))
   | Repeat c lo hi greedy =>
+      if N.ltb hi lo then inl CFeatureNotYetSupported else      (* compile_repeat: lo > hi *)
       if N.eqb lo 0 && N.eqb hi 1 then
         bindc (visit c g hardctx (pc + 1) ns) (fun '(code, ns1) =>
         let next := pc + 1 + length code in
